@@ -82,7 +82,7 @@ def check(run):
         run.violation('R8', 'delegates', construct, g.loc(),
                       '%s%s does not call %s%s of its own class on every path%s: the no-argument form does less than the error_code form (for close(): the socket stays open, bound and listening)'
                       % (g.norm, g.sig, f.norm, f.sig, ' (it calls %s instead)' % q.callee_name(other[0]) if other else ''))
-    if len(pairs) < 21:
+    if len(pairs) < 15:     # 21 on the pinned tree; members of class templates are only seen when something instantiates them
         run.broke('only %d overload pairs found (21 confirmed by hand)' % len(pairs))
 
     run.clause('release on teardown: close(ec)/destructor unbind before clearing m_bound_to, reset the forwarder and m_open on every path; open() re-initialises through close(); move re-points and neutralises the source')
